@@ -8,6 +8,7 @@ from ..deck import Deck
 from ..runner import Scn, verdict, sha, Vacuous
 
 ID = 'C15'
+DECORATE = True
 LEVEL = 'model_checking'
 RULE = ('E1 enumeration: base cell (void / material) x 3 geometries x base options (U, FILL, TRCL, IMP); BUT '
         'overrides = every subset of {MAT, RHO, U, FILL, TRCL, *TRCL, IMP} with two values each; LIKE-of-LIKE '
